@@ -58,7 +58,7 @@ def interpOne (x y : List α) (mode : ExtrapMode α) (t : α) : Option α :=
           some (slope * (t - x[n - 1]!) + y[n - 1]!)
     else
       let ratio := (t - x[idx - 1]!) / (x[idx]! - x[idx - 1]!)
-      some (ratio * y[idx - 1]! + (1 - ratio) * y[idx]!)
+      some (ratio * y[idx]! + (1 - ratio) * y[idx - 1]!)
 
 /-- the loop over the targets: the first panicking target aborts the call -/
 def interpAll (x y : List α) (mode : ExtrapMode α) : List α → Option (List α)
